@@ -5,7 +5,7 @@
 // corruption + blind byte mutation (gen.go) + regression seeds kept in /verif/corpus/C12.
 // Every input is run in a CHILD process (this binary re-executed with -child under `ulimit -v`
 // and a watchdog) through (a) the byte parser alone, (b) convert.ProtoToWire under the harness' own
-// recover, (c) the real DecodeFrom, (d) encoding.Transport.Read with a maximum around the input
+// recover, (c) the real DecodeFrom (also behind a second io.Reader shape), (d) encoding.Transport.Read with a maximum around the input
 // length, (e) EncodeTo+DecodeFrom of the produced message in both encodings; in the thorough tier
 // (f) the frames are also fed to a real wire.ClientConn over the in-memory transport (wire.go).
 package main
@@ -221,6 +221,18 @@ func caseOf(in *input, oc *childOutcome) (c coqfmt.Case, big bool) {
 	}
 	if r.Read == 3 {
 		c.Direct = r.ReadErr
+	}
+	if r.ShapeErr != "" {
+		c.Direct = r.ShapeErr
+		c.Sig = "reader-shape"
+	}
+	if r.Shape != "" {
+		obs["second_reader_shape"] = r.Shape
+		w0 := "same outcome, same message, reported count = bytes pulled"
+		if r.ShapeErr != "" {
+			w0 = r.ShapeErr
+		}
+		obs["second_reader_result"] = w0
 	}
 	if !r.Counters {
 		c.Direct = "Transport.Read and DecodeFrom disagree on the message, or the rx counter is not 0/1"
@@ -528,6 +540,9 @@ func main() {
 				}
 			}
 			w.Count("enc:" + ins[i].Enc)
+			if r.Shape != "" {
+				w.Count(ins[i].Enc + ":reader:" + r.Shape)
+			}
 			w.Count(fmt.Sprintf("outcome:parsed=%v,conv=%d,dec=%d,read=%d", r.Parsed != "", r.Conv, r.Dec, r.Read))
 		}
 		if c.Sig != "" {
